@@ -154,6 +154,11 @@ Terminal(st, gg) ==
            THEN {} ELSE {"C10.GiveUpVisible"})
      \cup (IF T.wait_exit_forever \/ \A i \in 1..T.n : ~(st.alive[i] /\ (st.jobs[i][1] \/ st.jobs[i][2]))
            THEN {} ELSE {"C10.Terminates"})
+     \* C08: nobody stays parked in DISTRIBUTION (or anywhere else) once the sequences are over
+     \cup (IF (T.wait_exit_forever \/ T.trigger \in {"restart", "shutdown"})
+              \/ \A i \in 1..T.n : st.alive[i] => (st.fsm[i] \in {"OPERATION", "CONCILIATION"}
+                                                    /\ ~st.jobs[i][1] /\ ~st.jobs[i][2])
+           THEN {} ELSE {"C08.Progress"})
      \* restart / shutdown: exactly one order per instance, everybody ended
      \cup (IF T.trigger \in {"restart", "shutdown"} =>
                 \A i \in gg.everAlive : (i \notin gg.lost_inst) => gg.orders[i] = 1
